@@ -94,8 +94,11 @@ class Sched:
     self.idle_at_end = []
     spec = self.schedule.spec
     self.line_targets = {int(n): int(c) for n, c in spec.get('line_preempt', [])}
-    self.trace_lines = bool(self.line_targets or spec.get('count_lines')) and LINE_ROOT is not None
+    # 'focus_preempt' counts only the lines of the code objects in LINE_CODES (set_line_root(extra_codes=...))
+    self.focus_targets = {int(n): int(c) for n, c in spec.get('focus_preempt', [])}
+    self.trace_lines = bool(self.line_targets or self.focus_targets or spec.get('count_lines')) and LINE_ROOT is not None
     self.lines = 0
+    self.focus_lines = 0
     self.line_preemptions = 0
 
   # -- thread management
@@ -189,13 +192,17 @@ class Sched:
     if me.kill:
       raise _Killed()
 
-  def line_point(self):
+  def line_point(self, focus=False):
     """Called from the trace hook for every source line of the library executed by the baton holder."""
     me = self.cur
     if me is None or me.kill or self.aborting or me.finished or me.os is not _t.current_thread():
       return
     self.lines += 1
     c = self.line_targets.get(self.lines)
+    if focus:
+      self.focus_lines += 1
+      if c is None:
+        c = self.focus_targets.get(self.focus_lines)
     if c is None:
       return
     others = [vt for vt in self.runnable() if vt is not me]
@@ -313,16 +320,34 @@ SCHED = None
 LINE_ROOT = None  # path prefix of the source files whose lines are preemption points (set_line_root)
 
 
-def set_line_root(path):
+LINE_CODES = set()  # code objects outside LINE_ROOT whose lines are preemption points too (e.g. a harness generator that
+                    # plays the shared input of the code under test)
+
+
+def set_line_root(path, extra_codes=()):
   global LINE_ROOT
   LINE_ROOT = path
+  LINE_CODES.clear()
+  LINE_CODES.update(extra_codes)
 
 
 def _global_trace(frame, event, arg):
   del event, arg
-  if LINE_ROOT is not None and frame.f_code.co_filename.startswith(LINE_ROOT):
-    return _local_trace
+  if LINE_ROOT is not None:
+    if frame.f_code in LINE_CODES:
+      return _local_trace_focus
+    if frame.f_code.co_filename.startswith(LINE_ROOT):
+      return _local_trace
   return None
+
+
+def _local_trace_focus(frame, event, arg):
+  del frame, arg
+  if event == 'line':
+    s = SCHED
+    if s is not None:
+      s.line_point(focus=True)
+  return _local_trace_focus
 
 
 def _local_trace(frame, event, arg):
